@@ -379,6 +379,134 @@ def eventsOf (c : Option Nat) : Nat → List Stmt → List Ev
   | _, [] => []
   | i, s :: rest => stmtEvAt c i s ++ eventsOf c (i + 1) rest
 
+/-! ### round 5c: the body ends the raw `*sql.Tx` itself
+
+A body can reach the transaction's raw `*sql.Tx` (its session is a `txSession`; other ORMs are handed it through
+`NewSessionFromTx`) and call `Commit()` / `Rollback()` on it.  database/sql marks the Tx done BEFORE it calls the
+driver, whatever the driver answers; from then on go-zero's own `tx.Commit()` / `tx.Rollback()` in the deferred
+closure is refused with the bare `sql.ErrTxDone` WITHOUT reaching the driver.  So the driver still sees exactly one
+end of the transaction (the body's), and `Transact` returns `sql.ErrTxDone` (body returned nil: the result of
+`tx.Commit()`), or the body's error / panic with `rollback failed: %w` of `sql.ErrTxDone` — never nil. -/
+
+structure RawEnd where
+  commit : Bool     -- `tx.Commit()` on the raw Tx (else `tx.Rollback()`)
+  ok     : Bool     -- the driver's answer to it
+  deriving DecidableEq, Repr, Inhabited
+
+/-- a body that, after its statements (if no statement error made it return early), may end the raw Tx itself
+and then ends as `base.fin` says -/
+structure BodyX where
+  base : Body
+  raw  : Option RawEnd := none
+  deriving DecidableEq, Repr, Inhabited
+
+def rawEv (r : RawEnd) : Ev := if r.commit then .commit r.ok else .rollback r.ok
+
+/-- the body gets as far as its raw end: a transaction was opened and no statement error was returned before -/
+def BodyX.reaches (f : Faults) (b : BodyX) : Bool :=
+  b.raw.isSome && f.opens && (runStmts b.base.cancelAt b.base.deadline 0 b.base.stmts).2.isNone
+
+/-- what go-zero's deferred closure returns once the Tx is already done: `tx.Commit()` = sql.ErrTxDone (body
+returned nil), else the body's error / panic with the refused Rollback wrapped -/
+def retAfterRawEnd : BodyOut → Err
+  | .nil => Err.of (.commit .txDone)
+  | .err e => { is := [.rollback .txDone], says := e.is ++ e.says }
+  | _ => { is := [.rollback .txDone], says := [.panic] }
+
+/-- `transactOnConn` over the extended body domain -/
+def transactOnConnX (f : Faults) (b : BodyX) : Result :=
+  match b.raw with
+  | none => transactOnConn f b.base
+  | some r =>
+    if b.reaches f then
+      { log := badPrefix f.badConn (.begin true :: ((runBody b.base).1 ++ [rawEv r])), runs := 1,
+        body := (runBody b.base).2, ret := some (retAfterRawEnd (runBody b.base).2) }
+    else transactOnConn f b.base
+
+/-- `transact` and `TransactCtx` over the extended domain: the same wrappers around `transactOnConnX` -/
+def transactFnX (connOk : Bool) (f : Faults) (b : BodyX) : Result :=
+  if !connOk then { log := [], runs := 0, body := .notRun, ret := some (Err.of .conn) }
+  else transactOnConnX f b
+
+def transactCtxX (env : Env) (f : Faults) (b : BodyX) : Result :=
+  brkDo env.ctxDone env.ctxDead env.brkAllow (acceptable env.userAccept) (transactFnX env.connOk f b)
+
+/-! ### round 5c: the session the body is given — which connection its statements run on, what a connection made
+from the session answers, which context reaches the body and database/sql
+
+`Wiring` is what the code decides (the Tie derives it from the source on every run: `Tie.extractedWiring`);
+`codeWiring` is the code the theorems are about.  The driver-call log of the model is then placed on connections:
+the transaction lives on connection 0; a statement made on the pool (`*sql.DB`) is given ANOTHER connection by
+database/sql (the transaction's own is checked out) and runs outside the transaction. -/
+
+inductive Handle
+  | tx      -- the transaction's own *sql.Tx
+  | pool    -- the *sql.DB
+  deriving DecidableEq, Repr, Inhabited
+
+inductive CtxArg
+  | callers      -- the context the function was called with (or a child of it: startSpan)
+  | background   -- context.Background()
+  deriving DecidableEq, Repr, Inhabited
+
+structure Wiring where
+  bodySession     : Handle   -- what backs the Session `transactOnConn` hands to the body
+  stmtHandle      : Handle   -- what a statement method of that session hands to database/sql (`.tx`: its own t.Tx)
+  bodyCtx         : CtxArg   -- the context `transactOnConn` hands to the body, relative to its own
+  stmtCtx         : CtxArg   -- the context a …Ctx statement method hands to database/sql, relative to the one it got
+  plainStmtCtx    : CtxArg   -- … a context-less statement method
+  rawDBRefused    : Bool     -- `txConn.RawDB` returns (nil, errNoRawDBFromTx)
+  nestRefused     : Bool     -- `txConn.Transact[Ctx]` returns errCantNestTx without calling the body
+  stmtErrReturned : Bool     -- a statement method returns the error of exec / query / PrepareContext unchanged
+  deriving DecidableEq, Repr, Inhabited
+
+def codeWiring : Wiring :=
+  { bodySession := .tx, stmtHandle := .tx, bodyCtx := .callers, stmtCtx := .callers, plainStmtCtx := .background,
+    rawDBRefused := true, nestRefused := true, stmtErrReturned := true }
+
+/-- the connection a statement of the body arrives on -/
+def Wiring.stmtConn (w : Wiring) : Nat :=
+  match w.bodySession, w.stmtHandle with
+  | .tx, .tx => 0
+  | _, _ => 1
+
+/-- the log on connections: Begin / Commit / Rollback on the transaction's connection 0 -/
+def tagLog (w : Wiring) (l : List Ev) : List (Nat × Ev) :=
+  l.map fun e => (match e with | .exec _ _ => w.stmtConn | .query _ _ => w.stmtConn | _ => 0, e)
+
+/-- the statements that arrive on a connection with no transaction open on it (the harness driver logs them
+`O<i>`); `st`: the connection that has one -/
+def outsideTx : Option Nat → List (Nat × Ev) → List Ev
+  | _, [] => []
+  | st, (c, e) :: rest =>
+    match e with
+    | .begin true => outsideTx (some c) rest
+    | .commit _ => outsideTx none rest
+    | .rollback _ => outsideTx none rest
+    | .exec _ _ => (if st == some c then [] else [e]) ++ outsideTx st rest
+    | .query _ _ => (if st == some c then [] else [e]) ++ outsideTx st rest
+    | _ => outsideTx st rest
+
+def composeCtx : CtxArg → CtxArg → CtxArg
+  | .callers, c => c
+  | .background, _ => .background
+
+/-- the context database/sql is handed for a statement of the body, relative to the context of the ENTRY point
+(`viaCtx`: the body uses the …Ctx methods with the context it was given) -/
+def Wiring.ctxAtDriver (w : Wiring) (entry : CtxArg) (viaCtx : Bool) : CtxArg :=
+  if viaCtx then composeCtx entry (composeCtx w.bodyCtx w.stmtCtx) else w.plainStmtCtx
+
+/-- what a `Transact` / `RawDB` on a connection made from the body's session does: (driver calls, an error comes
+back, a *sql.DB / a run of the nested body comes back) -/
+def Wiring.nestOutcome (w : Wiring) : List Ev × Bool × Bool :=
+  if w.nestRefused then ([], true, false) else ([.begin true, .commit true], false, true)
+
+def Wiring.rawDBOutcome (w : Wiring) : Bool × Bool :=      -- (an error comes back, a *sql.DB comes back)
+  if w.rawDBRefused then (true, false) else (false, true)
+
+/-- what the body sees of a statement the driver (or database/sql) failed -/
+def Wiring.stmtErrSeen (w : Wiring) (failed : Bool) : Bool := failed && w.stmtErrReturned
+
 /-! ### round 5: a nil function given to `WithAcceptable` (finding; fixes/not-applied/C14-withacceptable-nil.patch) -/
 
 /-- a verdict function whose evaluation may call a nil function value: `none` = that call (a nil-call panic) -/
@@ -413,5 +541,59 @@ def brkDoP (acc : Option Err → Option Bool) (req : Result) : Result :=
   else match acc req.ret with
     | some m => { req with mark := some m }
     | none => { req with escaped := true, ret := some (Err.of .panic), mark := none }
+
+namespace Conc
+
+/-! ### round 5c: two `Transact` calls in flight on one connection pool (small interleaving model)
+
+Each call is `transactOnConn`: Begin (database/sql hands it a connection that no open transaction holds — the
+pool never gives out a checked-out connection; which one is the scheduler's / pool's choice `c`), then its
+statements one by one, then its one end, all on ITS connection (`tx` is a local of the call: the wiring of
+`Props.statements_inside_the_transaction`).  The two calls interleave arbitrarily. -/
+
+inductive PC
+  | idle                  -- not begun
+  | running (left : Nat)  -- transaction open, `left` statements to go
+  | done                  -- ended
+  deriving DecidableEq, Repr
+
+structure St where
+  pc     : Bool → PC
+  conn   : Bool → Option Nat       -- the connection that holds the call's open transaction
+  begins : Bool → Nat              -- Begins / ends of the call's transaction seen by the driver
+  ends   : Bool → Nat
+  /-- statements of call `t` that ran on a connection held by the OTHER call's transaction or by none -/
+  stray  : Bool → Nat
+
+def upd {α} (f : Bool → α) (t : Bool) (v : α) : Bool → α := fun x => if x = t then v else f x
+
+/-- one step of call `t`; `c`: the connection the pool offers for a Begin; `n`: the length of the body -/
+def step (n : Bool → Nat) (s : St) (t : Bool) (c : Nat) : Option St :=
+  match s.pc t with
+  | .idle =>
+    -- the pool does not hand out a connection that holds an open transaction
+    if s.conn (!t) = some c then none
+    else some { s with pc := upd s.pc t (.running (n t)), conn := upd s.conn t (some c), begins := upd s.begins t (s.begins t + 1) }
+  | .running (k + 1) =>
+    -- a statement: on the call's own connection
+    some { s with pc := upd s.pc t (.running k),
+                  stray := upd s.stray t (s.stray t + (if s.conn t = none ∨ s.conn t = s.conn (!t) then 1 else 0)) }
+  | .running 0 =>
+    -- the one Commit / Rollback; the connection goes back to the pool
+    some { s with pc := upd s.pc t .done, conn := upd s.conn t none, ends := upd s.ends t (s.ends t + 1) }
+  | .done => none
+
+def init : St :=
+  { pc := fun _ => .idle, conn := fun _ => none, begins := fun _ => 0, ends := fun _ => 0, stray := fun _ => 0 }
+
+/-- every schedule: a list of (call, offered connection) choices; steps that are not enabled are skipped -/
+def run (n : Bool → Nat) : St → List (Bool × Nat) → St
+  | s, [] => s
+  | s, (t, c) :: rest =>
+    match step n s t c with
+    | some s' => run n s' rest
+    | none => run n s rest
+
+end Conc
 
 end GoZero.C14
